@@ -354,9 +354,10 @@ def verify_job(cname, shape, max_paths=20000):
         vc = SymVC(cname, shape)
         CURRENT_VC = vc
         vcs.append(vc)
-        from . import shadows
+        from . import shadows, symdict
 
         del shadows.TRIPPED[:]
+        symdict.reset_all()
         with _StubCtx(fn.stubs) as sc:
             vc.stubctx = sc
             try:
